@@ -239,7 +239,9 @@ pub fn run(ctx: &Ctx) -> Report {
     for &(h, maxsz) in &hs {
         let subs = subsets(1 << h, maxsz);
         bound.push(format!("h={}: {} subsets (size<={})", h, subs.len(), maxsz));
-        for &cols in &cols_menu {
+        // wide rows (beyond any fixed-size buffer a hasher might use): heights 0 and 1 only
+        let wide: Vec<usize> = if h > 1 { vec![] } else if ctx.quick() { vec![33, 128] } else { vec![17, 32, 33, 64, 127, 128, 129] };
+        for &cols in cols_menu.iter().chain(wide.iter()) {
             for special in [false, true] {
                 if special && (h > 1 || cols > 3) {
                     continue;
@@ -294,7 +296,7 @@ pub fn run(ctx: &Ctx) -> Report {
             }
         }
     }
-    rep.bound_completed = format!("columns {:?}; {}", cols_menu, bound.join("; "));
+    rep.bound_completed = format!("columns {:?} (+ wide rows of 33 / 128 columns at heights 0, 1; thorough: 17..129); {}", cols_menu, bound.join("; "));
     rep.extra.insert("variant".into(), json!(own.name()));
     rep
 }
